@@ -176,6 +176,9 @@ Proof. revert l. induction f as [|f IH]; intros l L E.
 Theorem stored_valid l : stored l = l -> valid l = true.
 Proof. apply exact_f. lia. Qed.
 
+Theorem preserved_iff_valid l : stored l = l <-> valid l = true.
+Proof. split; [apply stored_valid|apply valid_stored]. Qed.
+
 (* unicode.IsControl: category Cc *)
 Definition is_control (r : N) : bool := (r <? 32) || in_rng 127 159 r.
 (* text.Safe / text.SafeOneLine as pinned: they range over the string *)
@@ -338,6 +341,9 @@ Proof. induction l as [|y t IH]; cbn; [tauto|]. destruct (f y); [intros H; right
 Theorem clean_no_forbidden l x : In x (clean l) -> forbidden x = false.
 Proof. unfold clean, trim, pinned_clean. intros H. apply in_rev, dw_incl, in_rev, dw_incl in H.
   apply filter_In in H as [_ H]. now apply negb_true_iff in H. Qed.
+
+Theorem clean_name_survives l : gogit_name (clean l) = clean l /\ forall x, In x (clean l) -> forbidden x = false.
+Proof. split; [apply clean_survives_gogit|apply clean_no_forbidden]. Qed.
 
 Theorem pinned_clean_refuted : exists l, gogit_name (pinned_clean l) <> pinned_clean l.
 Proof. exists [74; 32]. discriminate. Qed.
